@@ -600,6 +600,10 @@ func g7NewName(r *Repo, rep *Report) {
 		case *ast.CallExpr:
 			if t, ok := isMembership(x); ok {
 				condTables[t] = true
+			} else if ts, ok := closureMembership(info, fi.Decl.Body, x, nameVar); ok {
+				for _, t := range ts {
+					condTables[t] = true
+				}
 			} else {
 				pureDisj = false
 			}
@@ -672,6 +676,144 @@ func g7NewName(r *Repo, rep *Report) {
 	} else {
 		rep.fail(Finding{Rule: "G7", Key: "G7|newName|progress", Where: []string{r.pos(loop.Pos())}, Msg: "newName's search loop does not advance its counter and update the candidate on every iteration (possible hang)"})
 	}
+}
+
+// closureMembership: the call is taken(candidate) where taken is a local function literal with one parameter that answers
+// "is the parameter a key of table T1 or of table T2 (…)": its body — comma-ok lookups tm.T[param], ifs over their oks,
+// returns of oks and constants — is evaluated for every combination of memberships and must be their disjunction. Returns
+// the tables.
+func closureMembership(info *types.Info, body *ast.BlockStmt, call *ast.CallExpr, nameVar types.Object) ([]string, bool) {
+	fid, ok := ast.Unparen(call.Fun).(*ast.Ident)
+	if !ok || len(call.Args) != 1 {
+		return nil, false
+	}
+	if aid, ok := ast.Unparen(call.Args[0]).(*ast.Ident); !ok || info.Uses[aid] != nameVar {
+		return nil, false
+	}
+	var lit *ast.FuncLit
+	defs := 0
+	ast.Inspect(body, func(n ast.Node) bool {
+		if as, ok := n.(*ast.AssignStmt); ok && len(as.Lhs) == len(as.Rhs) {
+			for k, l := range as.Lhs {
+				if id, ok := l.(*ast.Ident); ok && objOf(info, id) == info.Uses[fid] {
+					defs++
+					lit, _ = as.Rhs[k].(*ast.FuncLit)
+				}
+			}
+		}
+		return true
+	})
+	if defs != 1 || lit == nil || lit.Type.Params.NumFields() != 1 || len(lit.Type.Params.List[0].Names) != 1 {
+		return nil, false
+	}
+	param := info.Defs[lit.Type.Params.List[0].Names[0]]
+	// the tables looked up with the parameter
+	okVar := map[types.Object]string{}
+	var tables []string
+	bad := false
+	ast.Inspect(lit.Body, func(n ast.Node) bool {
+		as, ok := n.(*ast.AssignStmt)
+		if !ok {
+			return true
+		}
+		if len(as.Lhs) == 2 && len(as.Rhs) == 1 {
+			if ix, ok := ast.Unparen(as.Rhs[0]).(*ast.IndexExpr); ok {
+				sel, isSel := ast.Unparen(ix.X).(*ast.SelectorExpr)
+				kid, isID := ast.Unparen(ix.Index).(*ast.Ident)
+				oid, isOK := as.Lhs[1].(*ast.Ident)
+				if isSel && isID && isOK && info.Uses[kid] == param {
+					okVar[objOf(info, oid)] = sel.Sel.Name
+					tables = append(tables, sel.Sel.Name)
+					return true
+				}
+			}
+		}
+		bad = true
+		return true
+	})
+	if bad || len(tables) == 0 || len(tables) > 3 {
+		return nil, false
+	}
+	for mask := 0; mask < 1<<len(tables); mask++ {
+		member := map[string]bool{}
+		want := false
+		for i, t := range tables {
+			member[t] = mask&(1<<i) != 0
+			want = want || member[t]
+		}
+		var evalB func(e ast.Expr) (bool, bool)
+		evalB = func(e ast.Expr) (bool, bool) {
+			switch x := ast.Unparen(e).(type) {
+			case *ast.Ident:
+				if t, ok := okVar[info.Uses[x]]; ok {
+					return member[t], true
+				}
+				if tv, ok := info.Types[x]; ok && tv.Value != nil {
+					return tv.Value.String() == "true", true
+				}
+			case *ast.UnaryExpr:
+				if x.Op == token.NOT {
+					v, ok := evalB(x.X)
+					return !v, ok
+				}
+			case *ast.BinaryExpr:
+				a, ok1 := evalB(x.X)
+				b, ok2 := evalB(x.Y)
+				if ok1 && ok2 {
+					switch x.Op {
+					case token.LOR:
+						return a || b, true
+					case token.LAND:
+						return a && b, true
+					}
+				}
+			}
+			return false, false
+		}
+		var run func(list []ast.Stmt) (val, done, ok bool)
+		run = func(list []ast.Stmt) (bool, bool, bool) {
+			for _, st := range list {
+				switch x := st.(type) {
+				case *ast.AssignStmt:
+				case *ast.ReturnStmt:
+					if len(x.Results) != 1 {
+						return false, false, false
+					}
+					v, ok := evalB(x.Results[0])
+					return v, true, ok
+				case *ast.IfStmt:
+					c, ok := evalB(x.Cond)
+					if !ok {
+						return false, false, false
+					}
+					if c {
+						if v, done, ok := run(x.Body.List); !ok || done {
+							return v, done, ok
+						}
+					} else if x.Else != nil {
+						var els []ast.Stmt
+						switch e := x.Else.(type) {
+						case *ast.BlockStmt:
+							els = e.List
+						case *ast.IfStmt:
+							els = []ast.Stmt{e}
+						}
+						if v, done, ok := run(els); !ok || done {
+							return v, done, ok
+						}
+					}
+				default:
+					return false, false, false
+				}
+			}
+			return false, false, true
+		}
+		v, done, ok := run(lit.Body.List)
+		if !ok || !done || v != want {
+			return nil, false
+		}
+	}
+	return tables, true
 }
 
 // g7GetFuncName: returns nameOf's hit, else a name from newName that it registers through SetFuncName with the same types.
